@@ -750,3 +750,195 @@ Proof.
   destruct I as (_ & _ & _ & Ht & _). unfold head_tok in Ht. rewrite Q in Ht. destruct Ht as [Ht Hq].
   split; [|exact Hq]. subst t. apply Z.leb_le.
 Qed.
+
+(** * Audit round: STREAMS_BLOCKED is really sent, and names the limit *)
+
+(** the peer's limit as a stream count, as STREAMS_BLOCKED carries it *)
+Definition out_limit (m : outmap) : Z :=
+  if o_max m =? SM_InvalidStreamID then 0 else id_stream_num (o_max m).
+
+(** by the code alone: an OpenStream that fails at the limit leaves blockedSent set, and queues
+    STREAMS_BLOCKED(current limit) unless one was already sent for this limit *)
+Lemma out_open_fail_blocked : forall m m' fr, o_closed m = None ->
+  o_open m = (m', RErr ErrLimitReached, fr) ->
+  o_blockedSent m' = true /\ out_limit m' = out_limit m /\
+  ((o_blockedSent m = false /\ fr = [FBlocked (o_uni m) (out_limit m)]) \/
+   (o_blockedSent m = true /\ fr = [])).
+Proof.
+  intros m m' fr C E. unfold o_open in E. rewrite C in E.
+  destruct (negb (is_nil (o_queue m)) || (o_max m <? o_next m)).
+  - unfold maybe_send_blocked in E. destruct (o_blockedSent m) eqn:BS; inj3 E; subst m' fr.
+    + repeat split; auto.
+    + unfold out_limit; cbn. repeat split; auto.
+  - unfold open_stream in E. inj3 E. discriminate.
+Qed.
+
+(** the same for an OpenStreamSync that has to wait *)
+Lemma out_sync_park_blocked : forall m w m' fr,
+  o_sync_call m w false = (m', RParked, fr) ->
+  o_blockedSent m' = true /\ out_limit m' = out_limit m /\
+  ((o_blockedSent m = false /\ fr = [FBlocked (o_uni m) (out_limit m)]) \/
+   (o_blockedSent m = true /\ fr = [])).
+Proof.
+  intros m w m' fr E. unfold o_sync_call in E. destruct (o_closed m); [inj3 E; discriminate|].
+  destruct (is_nil (o_queue m) && (o_next m <=? o_max m)).
+  - unfold open_stream in E. inj3 E. discriminate.
+  - unfold maybe_send_blocked, o_set_queue in E; simp_out.
+    destruct (o_blockedSent m) eqn:BS; inj3 E; subst m' fr; unfold out_limit; cbn; repeat split; auto.
+Qed.
+
+Lemma bchain_snoc : forall uni lo a mid B' K fr, bchain uni lo a mid ->
+  bframes_ok uni mid B' K fr -> bchain uni lo (a ++ fr) B'.
+Proof.
+  intros uni lo a mid B' K fr H F. induction H as [lo|lo n r hi Hlt Hr IH]; cbn [app].
+  - destruct F as [[-> ->]|(-> & Hlt & _)]; [constructor|constructor; [exact Hlt|constructor]].
+  - constructor; [exact Hlt|]. apply IH. exact F.
+Qed.
+
+(** whole histories: the STREAMS_BLOCKED frames queued so far end with the CURRENT limit exactly
+    when blockedSent is set (so: sent at most once per limit, and never for another value) *)
+Theorem out_blocked_history : forall uni client ops m outs,
+  Forall (oop_ok (first_outgoing uni client)) ops ->
+  orun (init_out uni client) ops = (m, outs) ->
+  exists B, bchain uni (-1) (frames_of outs) B /\
+    (if o_blockedSent m then B = out_limit m else B < out_limit m) /\ 0 <= out_limit m.
+Proof.
+  intros uni client ops m outs Hok E.
+  pose proof (first_outgoing_range uni client) as Hf.
+  destruct (orun_inv _ _ _ _ _ _ _ _ Hf (inv_out_init uni client) Hok E)
+    as (n & K & B & I & _ & Hch & _).
+  exists B. cbn [init_out o_uni] in Hch. split; [exact Hch|].
+  pose proof (out_cnt_K _ _ _ _ _ Hf I) as HK. fold (out_limit m) in HK. rewrite HK.
+  destruct I as (_ & Hr & _ & _ & _ & Hb & _). split; [exact Hb|lia].
+Qed.
+
+(** ... hence: when an OpenStream fails at the limit, a STREAMS_BLOCKED naming that limit HAS been
+    queued (by this call or an earlier one since the limit was set), and it is the last one queued *)
+Theorem out_blocked_is_sent : forall uni client ops m1 outs1 m fr,
+  Forall (oop_ok (first_outgoing uni client)) ops ->
+  orun (init_out uni client) ops = (m1, outs1) -> o_closed m1 = None ->
+  o_open m1 = (m, RErr ErrLimitReached, fr) ->
+  bchain uni (-1) (frames_of outs1 ++ fr) (out_limit m) /\ 0 <= out_limit m /\
+  frames_of outs1 ++ fr <> [].
+Proof.
+  intros uni client ops m1 outs1 m fr Hok E C O.
+  pose proof (first_outgoing_range uni client) as Hf.
+  destruct (orun_inv _ _ _ _ _ _ _ _ Hf (inv_out_init uni client) Hok E)
+    as (n & K & B & I & _ & Hch & Hu & _).
+  cbn [init_out o_uni] in Hch, Hu.
+  destruct (ostep_inv _ _ OpOpen _ _ _ _ _ _ Hf I Logic.I O) as (n' & K' & B' & I' & _ & Hfr & _).
+  destruct (out_open_fail_blocked _ _ _ C O) as (BS & _ & _).
+  pose proof (out_cnt_K _ _ _ _ _ Hf I') as HK. fold (out_limit m) in HK.
+  destruct I' as (_ & Hr & _ & _ & _ & Hb & _). rewrite BS in Hb. subst B'.
+  rewrite Hu in Hfr. rewrite HK.
+  assert (Hc : bchain uni (-1) (frames_of outs1 ++ fr) K') by exact (bchain_snoc _ _ _ _ _ _ _ Hch Hfr).
+  split; [exact Hc|]. split; [lia|].
+  intros Hnil. rewrite Hnil in Hc. inversion Hc. lia.
+Qed.
+
+(** * Audit round: real FIFO - the queue is the arrival order and only its head is served *)
+
+(** what a step does to the queue of waiting callers, exactly *)
+Lemma ostep_queue_exact : forall f m op m' r fr n K B, 0 <= f <= 3 -> InvOut f m n K B ->
+  ostep m op = (m', r, fr) ->
+  match op, r with
+  | OpSyncCall w _, RParked => queue_ids m' = queue_ids m ++ [w]                (* joins at the back *)
+  | OpSyncWake w, RId _ => queue_ids m = w :: queue_ids m'                      (* the head leaves *)
+  | OpSyncCancel w, _ =>
+    queue_ids m' = filter (fun x => negb (w =? x)) (queue_ids m) \/ queue_ids m' = queue_ids m
+  | OpClose _, _ => queue_ids m' = []
+  | _, _ => queue_ids m' = queue_ids m                                          (* nobody moves *)
+  end.
+Proof.
+  intros f m op m' r fr n K B Hf I E. unfold queue_ids.
+  destruct op as [|w c|w|w|id|id|id|e]; cbn [ostep] in E.
+  - unfold o_open in E. destruct (o_closed m); [inj3 E; subst m' r; reflexivity|].
+    destruct (_ || _).
+    + pose proof (msb_queue m) as Q. destruct (maybe_send_blocked m) as [m1 fr1]. cbn [fst] in Q.
+      inj3 E; subst m' r. rewrite Q. reflexivity.
+    + unfold open_stream in E. inj3 E; subst m' r. simp_out. reflexivity.
+  - unfold o_sync_call in E. destruct (o_closed m); [inj3 E; subst m' r; reflexivity|].
+    destruct c; [inj3 E; subst m' r; reflexivity|].
+    destruct (_ && _).
+    + unfold open_stream in E. inj3 E; subst m' r. simp_out. reflexivity.
+    + set (m0 := o_set_queue m _) in E. pose proof (msb_queue m0) as Q.
+      destruct (maybe_send_blocked m0) as [m1 fr1]. cbn [fst] in Q. inj3 E; subst m' r.
+      rewrite Q. unfold m0; simp_out. rewrite map_app. reflexivity.
+  - destruct r; try (
+      unfold o_sync_wake in E;
+      destruct (zmem w (o_dead m)); [inj3 E; subst m'; simp_out; reflexivity|];
+      destruct (q_token w (o_queue m)) as [[]|]; [|inj3 E; subst m'; reflexivity|inj3 E; subst m'; reflexivity];
+      unfold o_set_queue in E; simp_out;
+      destruct (o_closed m); [inj3 E; subst m'; simp_out; rewrite map_fst_q_clear; reflexivity|];
+      destruct (o_max m <? o_next m); [inj3 E; subst m'; simp_out; rewrite map_fst_q_clear; reflexivity|];
+      unfold open_stream in E; simp_out; inj3 E; discriminate).
+    destruct (out_served_is_head _ _ _ _ _ _ _ _ _ Hf I E) as (q & Q1 & Q2 & _).
+    unfold queue_ids in Q2. rewrite Q1, Q2. reflexivity.
+  - unfold o_sync_cancel in E.
+    assert (G : map fst (o_queue m') = filter (fun x => negb (w =? x)) (map fst (o_queue m)) \/
+                map fst (o_queue m') = map fst (o_queue m)).
+    { destruct (zmem w (o_dead m)); [inj3 E; subst m'; simp_out; right; reflexivity|].
+      destruct (q_token w (o_queue m)); [|inj3 E; subst m'; right; reflexivity].
+      inj3 E; subst m'. set (m1 := o_set_queue m _).
+      pose proof (maybe_unblock_fields m1) as (_ & _ & _ & _ & _ & _ & _ & F8).
+      rewrite F8. unfold m1; simp_out. rewrite map_fst_q_remove. left. reflexivity. }
+    destruct r; exact G.
+  - destruct (o_set_max m id) as [m1 fr1] eqn:SM. inj3 E; subst m' r.
+    unfold o_set_max in SM. destruct (id <=? o_max m); [injection SM as <- _; reflexivity|].
+    set (m0 := mkOut _ _ _ _ _ _ _ _) in SM.
+    destruct (_ <? _).
+    + pose proof (msb_queue m0) as Q. destruct (maybe_send_blocked m0) as [m2 fr2]. cbn [fst] in Q.
+      injection SM as <- _.
+      pose proof (maybe_unblock_fields m2) as (_ & _ & _ & _ & _ & _ & _ & F8).
+      rewrite F8, Q. unfold m0; simp_out. reflexivity.
+    + injection SM as <- _.
+      pose proof (maybe_unblock_fields m0) as (_ & _ & _ & _ & _ & _ & _ & F8).
+      rewrite F8. unfold m0; simp_out. reflexivity.
+  - inj3 E; subst m'. destruct (o_get m id); reflexivity.
+  - unfold o_delete in E. destruct (zmem id (o_streams m)); inj3 E; subst m' r; simp_out; reflexivity.
+  - inj3 E; subst m' r. unfold o_close; simp_out. destruct e; reflexivity.
+Qed.
+
+(** nobody is served while an earlier arrival still waits: a waiter that is not the first element of
+    the queue cannot get a stream (with [ostep_queue_exact]: arrivals join at the back, the others
+    keep their order - this is FIFO) *)
+Theorem out_no_overtaking : forall uni client m pre a rest b, oreach uni client m ->
+  queue_ids m = pre ++ a :: rest -> In b rest -> ~ In b (pre ++ [a]) ->
+  forall m' id fr, o_sync_wake m b <> (m', RId id, fr).
+Proof.
+  intros uni client m pre a rest b R Q Hb Hn m' id fr E.
+  destruct (oreach_inv _ _ _ R) as ((n & K & B & I) & _ & _).
+  destruct (out_served_is_head _ _ _ _ _ _ _ _ _ (first_outgoing_range uni client) I E) as (q & Q1 & _).
+  unfold queue_ids in Q. rewrite Q1 in Q. cbn [map fst] in Q. apply Hn.
+  destruct pre as [|p pre]; cbn [app] in Q; injection Q as Q0 _; subst; cbn; auto.
+Qed.
+
+(** reachable states are closed under steps *)
+Lemma orun_snoc : forall ops m m1 outs op m' r fr,
+  orun m ops = (m1, outs) -> ostep m1 op = (m', r, fr) ->
+  orun m (ops ++ [op]) = (m', outs ++ [(r, fr)]).
+Proof.
+  induction ops as [|o ops IH]; intros m m1 outs op m' r fr E S; cbn [orun app] in *.
+  - injection E as <- <-. rewrite S. reflexivity.
+  - destruct (ostep m o) as [[m2 r2] fr2]. destruct (orun m2 ops) as [m3 outs3] eqn:R.
+    injection E as <- <-. rewrite (IH _ _ _ _ _ _ _ R S). reflexivity.
+Qed.
+
+Lemma oreach_init : forall uni client, oreach uni client (init_out uni client).
+Proof. intros. exists [], []. split; [constructor|reflexivity]. Qed.
+
+Lemma oreach_step : forall uni client m op m' r fr, oreach uni client m ->
+  oop_ok (first_outgoing uni client) op -> ostep m op = (m', r, fr) -> oreach uni client m'.
+Proof.
+  intros uni client m op m' r fr (ops & outs & Hok & E) Hop S.
+  exists (ops ++ [op]), (outs ++ [(r, fr)]). split; [apply Forall_app; split; [exact Hok|constructor; [exact Hop|constructor]]|].
+  eapply orun_snoc; eauto.
+Qed.
+
+Lemma out_open_fails_iff_open : forall m, o_closed m = None ->
+  (snd (fst (o_open m)) = RErr ErrLimitReached <-> o_queue m <> [] \/ o_max m < o_next m).
+Proof.
+  intros m C. rewrite out_open_fails_iff. rewrite C. split.
+  - intros [[_ H]|H]; [exact H|discriminate].
+  - intros H. left. split; [reflexivity|exact H].
+Qed.
